@@ -91,29 +91,29 @@ def entLookup (entries : List (String × Upd)) (name : String) : Option Upd :=
 
 def ignOf (a : Auth) (srv : Nat) : Bool := a.ign.getD srv false
 
+/-- every watcher of the resource gets each of the callbacks `ks` -/
+def bcast (r : RState) (ks : List CbKind) : List Cb := r.watchers.flatMap fun w => ks.map fun k => ⟨w, k⟩
+
 /-- the resource is rejected: notify unless the error string equals the previous one -/
-def onBad (ver tag : String) (r : RState) : RState × List Cb :=
+def onBad (ver tag : String) (r : RState) : RState × List CbKind :=
   let notify := match r.err with
     | none => true
     | some (t, _) => t != tag
-  let cbs := if notify then
-      r.watchers.map fun w => if r.cache.isNone then ⟨w, .resErr (.nack tag)⟩ else ⟨w, .ambErr (.nack tag)⟩
-    else []
-  ({ r with status := .nacked, err := some (tag, ver) }, cbs)
+  let kind := if r.cache.isNone then CbKind.resErr (.nack tag) else CbKind.ambErr (.nack tag)
+  ({ r with status := .nacked, err := some (tag, ver) }, if notify then [kind] else [])
 
 /-- the resource is accepted -/
-def onOk (ver c : String) (r : RState) : RState × List Cb :=
+def onOk (ver c : String) (r : RState) : RState × List CbKind :=
   let changed := r.cache != some c || r.err.isSome
-  let cbs := if changed then r.watchers.map fun w => ⟨w, .changed c⟩ else []
   ({ r with delIgnored := false, cache := if changed then some c else r.cache,
-            version := ver, err := none, status := .acked }, cbs)
+            version := ver, err := none, status := .acked }, if changed then [.changed c] else [])
 
-def updOne (ver : String) (r : RState) : Upd → RState × List Cb
+def updOne (ver : String) (r : RState) : Upd → RState × List CbKind
   | .bad tag => onBad ver tag r
   | .ok c => onOk ver c r
 
 /-- first loop of handleADSResourceUpdate on one resource state -/
-def updRes (typ ver : String) (entries : List (String × Upd)) (p : Key × RState) : (Key × RState) × List Cb :=
+def updRes (typ ver : String) (entries : List (String × Upd)) (p : Key × RState) : (Key × RState) × List CbKind :=
   if p.1.typ = typ then
     match entLookup entries p.1.name with
     | some u => ((p.1, (updOne ver p.2 u).1), (updOne ver p.2 u).2)
@@ -121,18 +121,30 @@ def updRes (typ ver : String) (entries : List (String × Upd)) (p : Key × RStat
   else (p, [])
 
 /-- second loop (types with AllResourcesRequiredInSotW) on one resource state -/
-def delOne (ign present : Bool) (r : RState) : RState × List Cb :=
+def delOne (ign present : Bool) (r : RState) : RState × List CbKind :=
   if r.cache.isNone then (r, [])
   else if present then (r, [])
   else if r.status = .notExist then (r, [])
   else if ign then ({ r with delIgnored := true }, [])
-  else ({ r with cache := none, status := .notExist, version := "", err := none },
-        r.watchers.map fun w => ⟨w, .resErr .notFound⟩)
+  else ({ r with cache := none, status := .notExist, version := "", err := none }, [.resErr .notFound])
 
-def delRes (typ : String) (ign : Bool) (entries : List (String × Upd)) (p : Key × RState) : (Key × RState) × List Cb :=
+def delRes (typ : String) (ign : Bool) (entries : List (String × Upd)) (p : Key × RState) : (Key × RState) × List CbKind :=
   if p.1.typ = typ then
     ((p.1, (delOne ign (entLookup entries p.1.name).isSome p.2).1), (delOne ign (entLookup entries p.1.name).isSome p.2).2)
   else (p, [])
+
+/-- the unsubscribe / release commands of handleRevertingToPrimaryOnUpdate: for every server below
+    `srv`, first unsubscribe everything subscribed there, then release the channel -/
+def revertCmds (a : Auth) (srv : Nat) : List Cmd :=
+  ((List.range a.n).filter (srv < ·)).flatMap fun i =>
+    ((a.res.filter fun p => p.2.chans.contains i).map fun p => Cmd.unsub i p.1) ++
+    (if a.opened.contains i then [Cmd.release i] else [])
+
+def restrictChans (srv : Nat) (p : Key × RState) : Key × RState :=
+  (p.1, { p.2 with chans := p.2.chans.filter (· ≤ srv) })
+
+def revertTo (a : Auth) (srv : Nat) : Auth :=
+  { a with active := some srv, opened := a.opened.filter (· ≤ srv), res := a.res.map (restrictChans srv) }
 
 /-- handleRevertingToPrimaryOnUpdate: (state, commands, continue processing?) -/
 def revert (a : Auth) (srv : Nat) : Auth × List Cmd × Bool :=
@@ -141,43 +153,36 @@ def revert (a : Auth) (srv : Nat) : Auth × List Cmd × Bool :=
   | some act =>
     if srv = act then (a, [], true)
     else if act < srv then (a, [], false)
-    else
-      let lower := (List.range a.n).filter (srv < ·)
-      let cmds := lower.flatMap fun i =>
-        ((a.res.filter fun p => p.2.chans.contains i).map fun p => Cmd.unsub i p.1) ++
-        (if a.opened.contains i then [Cmd.release i] else [])
-      ({ a with active := some srv,
-                opened := a.opened.filter (· ≤ srv),
-                res := a.res.map fun p => (p.1, { p.2 with chans := p.2.chans.filter (· ≤ srv) }) },
-       cmds, true)
+    else (revertTo a srv, revertCmds a srv, true)
+
+/-- the two loops of handleADSResourceUpdate -/
+def processUpdate (a : Auth) (srv : Nat) (typ ver : String) (entries : List (String × Upd)) : Auth × List Cb :=
+  let cbs1 := a.res.flatMap fun p => bcast p.2 (updRes typ ver entries p).2
+  let res1 := a.res.map fun p => (updRes typ ver entries p).1
+  if !sotw typ then ({ a with res := res1 }, cbs1)
+  else
+    let ign := ignOf a srv
+    let cbs2 := res1.flatMap fun p => bcast p.2 (delRes typ ign entries p).2
+    let res2 := res1.map fun p => (delRes typ ign entries p).1
+    ({ a with res := res2 }, cbs1 ++ cbs2)
 
 /-- handleADSResourceUpdate -/
 def handleUpdate (a : Auth) (srv : Nat) (typ ver : String) (entries : List (String × Upd)) : Out :=
-  let (a, cmds, cont) := revert a srv
-  if !cont then { auth := a, cmds := cmds, done := false }   -- returns before `onDone` is armed
-  else
-    let cbs1 := a.res.flatMap fun p => (updRes typ ver entries p).2
-    let res1 := a.res.map fun p => (updRes typ ver entries p).1
-    if !sotw typ then { auth := { a with res := res1 }, cbs := cbs1, cmds := cmds }
-    else
-      let ign := ignOf a srv
-      let cbs2 := res1.flatMap fun p => (delRes typ ign entries p).2
-      let res2 := res1.map fun p => (delRes typ ign entries p).1
-      { auth := { a with res := res2 }, cbs := cbs1 ++ cbs2, cmds := cmds }
+  let rv := revert a srv
+  if rv.2.2 then
+    let pu := processUpdate rv.1 srv typ ver entries
+    { auth := pu.1, cbs := pu.2, cmds := rv.2.1 }
+  else { auth := rv.1, cmds := rv.2.1, done := false }   -- returns before `onDone` is armed
 
 /-- handleADSResourceDoesNotExist -/
 def handleDNE (a : Auth) (k : Key) : Out :=
-  match lookup a.res k with
-  | none => { auth := a }
-  | some r =>
-    { auth := { a with res := a.res.map fun p =>
-                  if p.1 = k then (p.1, { p.2 with cache := none, status := .notExist, version := "", err := none }) else p },
-      cbs := r.watchers.map fun w => ⟨w, .resErr .notFound⟩ }
+  { auth := { a with res := a.res.map fun p =>
+                if p.1 = k then (p.1, { p.2 with cache := none, status := .notExist, version := "", err := none }) else p },
+    cbs := a.res.flatMap fun p => bcast p.2 (if p.1 = k then [.resErr .notFound] else []) }
 
 /-- propagateConnectivityErrorToAllWatchers -/
 def propagate (a : Auth) : List Cb :=
-  a.res.flatMap fun p => p.2.watchers.map fun w =>
-    if p.2.cache.isNone then ⟨w, .resErr .conn⟩ else ⟨w, .ambErr .conn⟩
+  a.res.flatMap fun p => bcast p.2 [if p.2.cache.isNone then .resErr .conn else .ambErr .conn]
 
 /-- watcherExistsForUncachedResource -/
 def uncachedWatch (a : Auth) : Bool := a.res.any fun p => p.2.status = .requested
@@ -201,38 +206,50 @@ def handleFailure (a : Auth) (srv : Nat) (afterRecv : Bool) : Out :=
     | none => { auth := a, cbs := propagate a }
 
 /-- what a new watcher is told at once -/
-def initialCbs (w : Nat) (r : RState) : List Cb :=
-  (match r.cache with | some c => [⟨w, .changed c⟩] | none => []) ++
+def initialKinds (r : RState) : List CbKind :=
+  (match r.cache with | some c => [.changed c] | none => []) ++
   (if r.status = .nacked then
      match r.err with
-     | some (t, _) => [if r.cache.isNone then ⟨w, .resErr (.nack t)⟩ else ⟨w, .ambErr (.nack t)⟩]
+     | some (t, _) => [if r.cache.isNone then .resErr (.nack t) else .ambErr (.nack t)]
      | none => []   -- unreachable: NACKed status always comes with an ErrState
    else []) ++
-  (if r.status = .notExist then [⟨w, .resErr .notFound⟩] else [])
+  (if r.status = .notExist then [.resErr .notFound] else [])
+
+def initialCbs (w : Nat) (r : RState) : List Cb := (initialKinds r).map fun k => ⟨w, k⟩
+
+/-- xdsChannelToUse: (state, commands, the channel to use) -/
+def channelToUse (a : Auth) : Auth × List Cmd × Nat :=
+  match a.active with
+  | some act => (a, [], act)
+  | none => ({ a with opened := a.opened ++ [0], active := some 0 }, [Cmd.build 0], 0)
+
+/-- the resourceState created by the first watch of a resource -/
+def newRState (w act : Nat) : RState :=
+  { watchers := [w], cache := none, status := .requested, version := "", err := none, delIgnored := false, chans := [act] }
+
+def addWatcher (k : Key) (w : Nat) (p : Key × RState) : Key × RState :=
+  if p.1 = k then (p.1, { p.2 with watchers := p.2.watchers ++ [w] }) else p
 
 /-- watchResource -/
 def watch (a : Auth) (k : Key) (w : Nat) : Out :=
-  -- xdsChannelToUse
-  let (a, cmds0, act) := match a.active with
-    | some act => (a, [], act)
-    | none => ({ a with opened := a.opened ++ [0], active := some 0 }, [Cmd.build 0], 0)
+  let cu := channelToUse a
   match lookup a.res k with
   | none =>
-    let r : RState := { watchers := [w], cache := none, status := .requested, version := "", err := none,
-                        delIgnored := false, chans := [act] }
-    { auth := { a with res := a.res ++ [(k, r)] }, cbs := initialCbs w r, cmds := cmds0 ++ [Cmd.sub act k] }
+    { auth := { cu.1 with res := a.res ++ [(k, newRState w cu.2.2)] }, cbs := initialCbs w (newRState w cu.2.2),
+      cmds := cu.2.1 ++ [Cmd.sub cu.2.2 k] }
   | some r =>
-    { auth := { a with res := a.res.map fun p => if p.1 = k then (p.1, { p.2 with watchers := p.2.watchers ++ [w] }) else p },
-      cbs := initialCbs w r, cmds := cmds0 }
+    { auth := { cu.1 with res := a.res.map (addWatcher k w) }, cbs := initialCbs w r, cmds := cu.2.1 }
+
+def dropWatcher (k : Key) (w : Nat) (p : Key × RState) : Key × RState :=
+  if p.1 = k then (p.1, { p.2 with watchers := p.2.watchers.filter (· ≠ w) }) else p
 
 /-- unwatchResource -/
 def unwatch (a : Auth) (k : Key) (w : Nat) : Out :=
   match lookup a.res k with
   | none => { auth := a }
   | some r =>
-    let ws := r.watchers.filter (· ≠ w)
-    if ws ≠ [] then
-      { auth := { a with res := a.res.map fun p => if p.1 = k then (p.1, { p.2 with watchers := ws }) else p } }
+    if r.watchers.filter (· ≠ w) ≠ [] then
+      { auth := { a with res := a.res.map (dropWatcher k w) } }
     else
       let res := a.res.filter (·.1 ≠ k)
       let cmds := r.chans.map fun i => Cmd.unsub i k
